@@ -173,9 +173,32 @@ def t_derive_lit(f):
     return [Derive(**{fresh("z"): C(i[0]) * 3 + C(i[1])})]
 
 
+def t_filter_halfopen(f):
+    i = f.ints()
+    if not i:
+        raise Skip()
+    return [Filter((C(i[0]) >= 1) & (C(i[0]) < 5))]
+
+
+def t_filter_closed(f):
+    i = f.ints()
+    if not i:
+        raise Skip()
+    return [Filter((C(i[0]) >= 1) & (C(i[0]) <= 5))]
+
+
+def t_derive_halfopen(f):
+    i = f.ints()
+    if len(i) < 2:
+        raise Skip()
+    from families import fresh
+    return [Derive(**{fresh("p_h"): (C(i[1]) > 0) & (C(i[1]) <= 3), fresh("p_g"): (C(i[0]) >= 0) & (C(i[0]) < 2) | (C(i[1]) == None)})]  # noqa: E711
+
+
 def family_c06(tier, seed):
     import random
-    alpha = dict(ALPHABET, filter_and=t_filter_and, derive_lit=t_derive_lit)
+    alpha = dict(ALPHABET, filter_and=t_filter_and, derive_lit=t_derive_lit, filter_halfopen=t_filter_halfopen, filter_closed=t_filter_closed,
+                 derive_halfopen=t_derive_halfopen)
     bases = list(enumerate_family(2, heads=("sel",), alphabet=alpha))
     # sort -> take -> row-preserving transform: the prefix ending in `take` is the interesting rewrite site
     from families import build
@@ -186,7 +209,7 @@ def family_c06(tier, seed):
                 if pipe is not None:
                     bases.append((f"sel:{s_}>{tk}>{w_}", Prog(pipe)))
     if tier == "thorough":
-        names = ["derive_lit", "filter_and", "sort_asc", "take_n", "group_agg", "join_inner", "win_sum", "select_2", "agg", "group_take", "distinct", "derive_mix", "take_range"]
+        names = ["derive_lit", "filter_and", "filter_halfopen", "derive_halfopen", "sort_asc", "take_n", "group_agg", "join_inner", "win_sum", "select_2", "agg", "group_take", "distinct", "derive_mix", "take_range"]
         bases += [b for b in enumerate_family(3, heads=("sel",), alphabet=alpha, only_names=names) if b[0].count(">") == 2]
     out = []
     for tag, prog in bases:
